@@ -90,6 +90,7 @@ func lockScenario(name string, pop []int, cancelIdx int) *explore.Scenario {
 		if cancelIdx >= 0 {
 			c := cancel
 			s.Spawn("canceller", false, func() {
+				verifrt.PointOn("cancel context", "real")
 				c()
 			})
 		}
